@@ -124,7 +124,8 @@ class Scalar(AbstractValueWithQuantityObject):
 
         """
         if value is None:
-            self._value = self._GetDefaultValue(quantity.GetCategoryInfo())
+            # the category's default value is expressed in its default unit
+            self._value = self._GetDefaultValue(quantity.GetCategoryInfo(), quantity.GetUnit())
         else:
             self._value = float(value)
 
